@@ -3,11 +3,13 @@
    Layers: F = documented format (Format.v), S = abstract spec (Spec/SpecStep), I = model of the Rust (World.step'). *)
 From Coq Require Import List NArith Bool Arith Sorted.
 From Coq Require Import Strings.Byte.
-Require Import BS.Bytes BS.Common BS.Api BS.Layout BS.Format BS.FormatFacts.
+Require Import BS.Bytes BS.Common BS.Api BS.Layout BS.Format BS.FormatFacts BS.Spec BS.SpecStep.
+Require Import BS.FS BS.FSFacts BS.Meta BS.MetaFacts BS.Header BS.Reader BS.ReaderFacts BS.Index BS.Data BS.DataFacts BS.Seek BS.Series BS.SeriesFacts.
 Import ListNotations.
 
-(* an intact region recovers to all its lines and its whole length *)
+(* (F) an intact region recovers to all its lines and its whole length *)
 Theorem C05_recover_intact : forall (p:nat) (l:list line), wf_series p l ->
   recover p (encode p l) = Some (l, N.of_nat (length (encode p l))).
 Proof. exact recover_encode. Qed.
 Print Assumptions C05_recover_intact.
+(* partial: recover on every cut prefix and the repair pipeline of the model are not proved yet. *)
